@@ -272,7 +272,7 @@ pub fn run(args: &Args, rep: &mut Report) {
         return;
     }
     // ---- random multi-field combinations
-    let combos = if thorough { 400_000 } else { 60_000 } / nshards;
+    let combos = if thorough { 6_000_000 } else { 60_000 } / nshards;
     for i in 0..combos {
         let (bname, base) = &bases[rng.usize_below(bases.len())];
         let is32 = bname == "fat32";
@@ -309,7 +309,7 @@ pub fn run(args: &Args, rep: &mut Report) {
     // ---- FS-info sector contents (FAT32 base)
     if let Some((bname, base)) = bases.iter().find(|b| b.0 == "fat32") {
         let fo = 512u64;
-        let n = if thorough { 60_000 } else { 12_000 } / nshards;
+        let n = if thorough { 1_000_000 } else { 12_000 } / nshards;
         for i in 0..n {
             let mut img = base.clone();
             let mut what = Vec::new();
@@ -339,7 +339,7 @@ pub fn run(args: &Args, rep: &mut Report) {
         }
     }
     // ---- whole boot sector random / truncated devices
-    let n = if thorough { 40_000 } else { 6_000 } / nshards;
+    let n = if thorough { 1_000_000 } else { 6_000 } / nshards;
     for i in 0..n {
         let (bname, base) = &bases[rng.usize_below(bases.len())];
         let mut img = base.clone();
